@@ -261,5 +261,11 @@ theorem defrag_inv (d : DB) (h : Cached d) (hv : d.volatile = false) (hwf : Inde
     refine ⟨_, by rw [d7]; exact d6, ?_, by simp⟩
     rw [m2]; simp
   · rw [m1]; intro h'; cases h'
+  · intro kr hkr
+    rw [hDI] at hkr
+    obtain ⟨x, hx, rfl⟩ := List.mem_map.mp hkr
+    obtain ⟨h1, h2⟩ := hreads x hx
+    exact ⟨_, valOf x.2, by show dlookup x.2.seq _ = _; rw [h1]; exact d6, h2⟩
+  · rw [m1]; intro h'; cases h'
 
 end GocoinV.Proofs.C19
